@@ -85,6 +85,11 @@ def flush_rules(ctx: Ctx, res: Result, RID: str):
             res.ok(RID, {"wait reached on every path": True})
         if loops:
             it = getattr(loops[0], "iter", None)
+            if isinstance(it, ast.Name):
+                # pending = list(self._pending.values()) taken under the lock, then walked
+                bs_ = [b for k_, b in t.local_bindings(flush, it.id)]
+                if len(bs_) == 1 and isinstance(bs_[0], tuple) and bs_[0][2] is None and bs_[0][1] is not None:
+                    it = bs_[0][1]
             cut = [n for n in ast.walk(it) if isinstance(n, ast.Subscript) or (isinstance(n, ast.Call) and norm(n.func).endswith("islice"))] if it is not None else []
             if it is not None and "_pending" in norm(it) and cut:
                 res.fail(Finding(RID, flush.qname, it, flush.loc(it), "flush waits for a part of the pending futures only (`%s`)" % norm(cut[0])[:60]))
